@@ -154,6 +154,13 @@ func (p *fragPipe) Written() []byte {
 	return append([]byte(nil), p.log...)
 }
 
+// Consumed returns everything written so far and how much of it the reader has taken.
+func (p *fragPipe) Consumed() ([]byte, int) {
+	p.mu.Lock()
+	defer p.mu.Unlock()
+	return append([]byte(nil), p.log...), len(p.log) - len(p.buf)
+}
+
 func (p *fragPipe) Reads() int {
 	p.mu.Lock()
 	defer p.mu.Unlock()
